@@ -122,7 +122,9 @@ impl KRange {
             }
         };
 
-        let end = if inclusive { end + 1 } else { end };
+        // An inclusive range that ends at i64::MAX can't be represented with an exclusive end,
+        // saturate instead of overflowing.
+        let end = if inclusive { end.saturating_add(1) } else { end };
         start..end.max(start)
     }
 
@@ -167,7 +169,8 @@ impl KRange {
     pub fn size(&self) -> Option<usize> {
         if self.is_bounded() {
             let range = self.as_bounded_range();
-            Some(((range.end).max(range.start) - range.start) as usize)
+            // The distance between two i64 values always fits in a u64
+            Some((range.end).max(range.start).wrapping_sub(range.start) as u64 as usize)
         } else {
             None
         }
